@@ -13,7 +13,7 @@ import (
 	"github.com/dolthub/dolt/go/zzverif/vsql"
 )
 
-const c30Rule = "twin tables in one database receive the identical generated history on two branches: t_fast (keyed, every value column nullable, no index, no check: eligible for the chunk-level merge in computeProllyTreePatches), t_slow (same plus a non-unique secondary index on a value column) and t_chk (same plus a tautological CHECK), the latter two forced onto the row-by-row three-way differ. Histories are C29's (INSERT/REPLACE/UPDATE/DELETE over shared keys, no schema change); in about a third of the cases the base has 1200-4000 rows and both branches also run wide statements (ranged computed/constant UPDATEs, ranged DELETEs, block INSERTs of 100+ rows) so that whole leaf chunks differ and the patch generator emits range patches. After CALL dolt_merge (both directions in part of the cases): rows, dolt_conflicts_<t> rows and dolt_conflicts counts of the three tables must be identical to each other and to the reference merge (vsql.Merge3); index lookups on t_slow must agree with its rows. Non-trivial: both branches changed a run of >= 250 rows with one statement and at least one key was edited differently on both sides; distinct by (schema, base size/salt, both histories)."
+const c30Rule = "twin tables in one database receive the identical generated history on two branches: t_fast (keyed, every value column nullable, no index, no check: eligible for the chunk-level merge in computeProllyTreePatches), t_slow (same plus a non-unique secondary index on a value column) and t_chk (same plus a tautological CHECK), the latter two forced onto the row-by-row three-way differ. Histories are C29's (INSERT/REPLACE/UPDATE/DELETE over shared keys, no schema change); in about a third of the cases the base has 1200-3200 rows and both branches also run wide statements (ranged computed/constant UPDATEs, ranged DELETEs, block INSERTs of 100+ rows) so that whole leaf chunks differ and the patch generator emits range patches. After CALL dolt_merge (both directions in part of the cases): rows, dolt_conflicts_<t> rows and dolt_conflicts counts of the three tables must be identical to each other and to the reference merge (vsql.Merge3); index lookups on t_slow must agree with its rows. Non-trivial: both branches changed a run of >= 250 rows with one statement and at least one key was edited differently on both sides; distinct by (schema, base size/salt, both histories)."
 
 var c30Assumptions = []string{
 	"which path a table takes is inferred from canFastMergeProllyTrees' conditions (read from the code, confirmed by a mutation of the fast path that only t_fast notices), not observed directly",
@@ -30,7 +30,7 @@ func TestVerif_C30(t *testing.T) {
 		vh.Inconclusive(t, "start server: %v", err)
 	}
 	defer env.srv.Stop()
-	vh.Check(t, "twins", 150, 600, func(rt *rapid.T) {
+	vh.Check(t, "twins", 120, 500, func(rt *rapid.T) {
 		c30Case(rt, env, rec)
 	})
 }
@@ -40,7 +40,7 @@ func c30Case(rt *rapid.T, env *mEnv, rec *vh.Recorder) {
 	sp := mGenSpec(rt, mSpecOpts{allNullable: true, keyMaxLo: 3, keyMaxHi: 16, onePK: large})
 	nBase := 24
 	if large {
-		sp.KeyMax = rapid.IntRange(1200, 4000).Draw(rt, "large.keymax")
+		sp.KeyMax = rapid.IntRange(1200, 3200).Draw(rt, "large.keymax")
 		nBase = sp.KeyMax
 	}
 	slow := sp
@@ -67,12 +67,12 @@ func c30Case(rt *rapid.T, env *mEnv, rec *vh.Recorder) {
 	hop := mHistoryOpts{maxCommits: 3, minOps: 2, maxOps: 7}
 	opo := mOpOpts{keyMax: sp.KeyMax, maxRange: 2, wInsert: 3, wUpdate: 6, wDelete: 2}
 	if large {
-		opo.wide = rapid.IntRange(400, 1600).Draw(rt, "large.wide")
+		opo.wide = rapid.IntRange(600, 1400).Draw(rt, "large.wide")
 		hop.maxCommits = 2
 	}
 	ours := base.clone()
 	c.checkoutNew(rt, "b1", "base")
-	mRunHistory(rt, c, "ours", []*mTrack{{side: ours, tables: twins, op: opo}}, hop)
+	mRunHistory(rt, c, "ours", []*mTrack{{side: ours, tables: twins, op: opo, openWide: large}}, hop)
 	theirs := base.clone()
 	opo.hot = ours.touchedKeys()
 	if large && len(opo.hot) > 200 {
@@ -80,7 +80,7 @@ func c30Case(rt *rapid.T, env *mEnv, rec *vh.Recorder) {
 	}
 	opo.other = ours
 	c.checkoutNew(rt, "b2", "base")
-	mRunHistory(rt, c, "theirs", []*mTrack{{side: theirs, tables: twins, op: opo}}, hop)
+	mRunHistory(rt, c, "theirs", []*mTrack{{side: theirs, tables: twins, op: opo, openWide: large}}, hop)
 
 	cols := mNames(sp.Cols)
 	n := len(cols)
